@@ -188,3 +188,165 @@ Theorem C14_url_tie_needed_refuted :
     ~ covered seahash (probes seahash (C03_Model.rq_src rp_req) ul) f.
 Proof. exact url_tie_needed_refuted. Qed.
 Print Assumptions C14_url_tie_needed_refuted.
+
+(* ------------------------------------------------------------------ the url tie for Request::new:
+   everything from the first '?' on is copied byte for byte by the URL normaliser (C12 model), so
+   the premise url_tie of the theorems above is DISCHARGED for every request Request::new builds,
+   together with scheme_tie and is_supported; no side condition *)
+From Adb Require Import Base BaseProofs Generated Hashing Net_Model Net_Proofs Engine_Model Engine_Proofs Tok_Proofs Tok_Ext_Model Tok_Ext_Proofs C14_Relevant_Model C14_Relevant_Proofs C14_UrlTie_Model C14_UrlTie_Proofs.
+From Adb Require C03_Model C12_Model C13_Model C14_Model.
+
+Theorem C14_request_new_ties :
+  forall (idna : str -> option str) (psl : str -> nat * nat) (hash : str -> N) 
+    (tok : str -> list N) (u s t : str) (q : C12_Model.request),
+  C12_Model.Request_new idna psl hash tok u s t = Ok (Some q) ->
+  C12_Model.original_url q = u /\
+  url_tie u (C12_Model.url_lower_cased q) /\
+  scheme_tie (req_of q) (C12_Model.url_lower_cased q) /\
+  (C12_Model.is_http q || C12_Model.is_https q = true -> C12_Model.is_supported q = true).
+Proof. exact request_new_ties. Qed.
+Print Assumptions C14_request_new_ties.
+
+Theorem C14_relevant_key_in_new :
+  forall (idna : str -> option str) (psl : str -> nat * nat) (hash : str -> N) 
+    (tok : str -> list N) (u s t : str) (q : C12_Model.request) (n : str),
+  C12_Model.Request_new idna psl hash tok u s t = Ok (Some q) ->
+  relevant u n = true -> key_in (C12_Model.url_lower_cased q) n.
+Proof. exact relevant_key_in_new. Qed.
+Print Assumptions C14_relevant_key_in_new.
+
+Theorem C14_token_guarantee_param_new :
+  forall (idna : str -> option str) (psl : str -> nat * nat) (hash : str -> N) 
+    (tok : str -> list N) (u s t : str) (q : C12_Model.request),
+  C12_Model.Request_new idna psl hash tok u s t = Ok (Some q) ->
+  forall (h : str -> N) (f : rule) (odu ondu : option N),
+  no_param_fallback h f = false ->
+  relevant_rule u f = true ->
+  C03_Model.check_options (rmask f) (rdomains f) odu (rnotdomains f) ondu (req_of q) = true ->
+  (needs_source f = true ->
+   nullb (param_tokens h f) = true -> C12_Model.source_hostname_hashes q <> None) ->
+  (scheme_restricted f = true -> C12_Model.is_http q || C12_Model.is_https q = true) ->
+  within_cutoff false false (C12_Model.url_lower_cased q) ->
+  covered h (probes h (C12_Model.source_hostname_hashes q) (C12_Model.url_lower_cased q)) f.
+Proof. exact token_guarantee_param_new. Qed.
+Print Assumptions C14_token_guarantee_param_new.
+
+Theorem C14_TG_rp_new :
+  forall (idna : str -> option str) (psl : str -> nat * nat) (hash : str -> N) 
+    (tok : str -> list N) (u s t : str) (q : C12_Model.request),
+  C12_Model.Request_new idna psl hash tok u s t = Ok (Some q) ->
+  forall (h : str -> N) (matches : rule -> bool) (host : str) (L : list rule),
+  within_cutoff false false (C12_Model.url_lower_cased q) ->
+  C12_Model.source_hostname_hashes q <> None ->
+  C12_Model.is_http q || C12_Model.is_https q = true ->
+  mixed_hits h matches (req_of q) (C12_Model.url_lower_cased q) host L ->
+  TG_rp h matches (probes h (C12_Model.source_hostname_hashes q) (C12_Model.url_lower_cased q)) u L.
+Proof. exact TG_rp_new. Qed.
+Print Assumptions C14_TG_rp_new.
+
+Theorem C14_engine_bits_new :
+  forall (idna : str -> option str) (psl : str -> nat * nat) (hash : str -> N) 
+    (tok : str -> list N) (u s t : str) (q : C12_Model.request),
+  C12_Model.Request_new idna psl hash tok u s t = Ok (Some q) ->
+  forall (h : str -> N) (matches : rule -> bool) (host : str) (st : C13_Model.storage) 
+    (mr fc : bool) (L : list rule) (T : list str),
+  id_inj L ->
+  within_cutoff false false (C12_Model.url_lower_cased q) ->
+  C12_Model.source_hostname_hashes q <> None ->
+  C12_Model.is_http q || C12_Model.is_https q = true ->
+  mixed_hits h matches (req_of q) (C12_Model.url_lower_cased q) host L ->
+  let e :=
+    engine_check matches (probes h (C12_Model.source_hostname_hashes q) (C12_Model.url_lower_cased q))
+      (C12_Model.is_supported q) (C12_Model.original_url q) st mr fc
+      (tags_with_set h (blocker_new h L) T) in
+  {|
+    v_matched := r_matched e;
+    v_important := r_important e;
+    v_exception := r_exception e;
+    v_filter := r_filter e
+  |} = spec_verdict_p matches mr fc L T.
+Proof. exact engine_bits_new. Qed.
+Print Assumptions C14_engine_bits_new.
+
+Theorem C14_engine_rewritten_new :
+  forall (idna : str -> option str) (psl : str -> nat * nat) (hash : str -> N) 
+    (tok : str -> list N) (u s t : str) (q : C12_Model.request),
+  C12_Model.Request_new idna psl hash tok u s t = Ok (Some q) ->
+  forall (h : str -> N) (matches : rule -> bool) (host : str) (st : C13_Model.storage) 
+    (mr fc : bool) (L : list rule) (T : list str),
+  id_inj L ->
+  within_cutoff false false (C12_Model.url_lower_cased q) ->
+  C12_Model.source_hostname_hashes q <> None ->
+  C12_Model.is_http q || C12_Model.is_https q = true ->
+  mixed_hits h matches (req_of q) (C12_Model.url_lower_cased q) host L ->
+  r_rewritten
+    (engine_check matches (probes h (C12_Model.source_hostname_hashes q) (C12_Model.url_lower_cased q))
+       (C12_Model.is_supported q) (C12_Model.original_url q) st mr fc
+       (tags_with_set h (blocker_new h L) T)) =
+  C14_Model.rewritten_url (v_important (spec_verdict_p matches mr fc L T)) (spec_param_names matches L)
+    u.
+Proof. exact engine_rewritten_new. Qed.
+Print Assumptions C14_engine_rewritten_new.
+
+Theorem C14_tokens_for_match_new :
+  forall (idna : str -> option str) (psl : str -> nat * nat) (h : str -> N) 
+    (u s t : str) (q : C12_Model.request),
+  request_new idna psl h u s t = Ok (Some q) ->
+  tokens_for_match q = probes h (C12_Model.source_hostname_hashes q) (C12_Model.url_lower_cased q).
+Proof. exact tokens_for_match_new. Qed.
+Print Assumptions C14_tokens_for_match_new.
+
+Theorem C14_url_tie_token_guarantee_example :
+  C12_Model.url ut_q = bs "https://A.com/p?x=1&utm_source=z#f" /\
+  C12_Model.url ut_q <> ut_url /\
+  C12_Model.original_url ut_q = ut_url /\
+  relevant_rule ut_url rp_rule_utm = true /\
+  C03_Model.check_options (rmask rp_rule_utm) (rdomains rp_rule_utm) None (rnotdomains rp_rule_utm) None
+    (req_of ut_q) = true /\
+  within_cutoff false false (C12_Model.url_lower_cased ut_q) /\
+  covered seahash (tokens_for_match ut_q) rp_rule_utm.
+Proof. exact ut_token_guarantee_example. Qed.
+Print Assumptions C14_url_tie_token_guarantee_example.
+
+Theorem C14_url_tie_engine_example :
+  let q := ut_q_hard in
+  let pr := probes seahash (C12_Model.source_hostname_hashes q) (C12_Model.url_lower_cased q) in
+  C12_Model.url q = bs "https://u:p@A.com/p?x=1&utm_source=z#f" /\
+  C12_Model.url_lower_cased q <> lower_str ut_url_hard /\
+  url_tie ut_url_hard (C12_Model.url_lower_cased q) /\
+  tokens_for_match q = pr /\
+  id_inj rp_example_list /\
+  within_cutoff false false (C12_Model.url_lower_cased q) /\
+  C12_Model.source_hostname_hashes q <> None /\
+  C12_Model.is_http q || C12_Model.is_https q = true /\
+  mixed_hits seahash rp_example_matches (req_of q) (C12_Model.url_lower_cased q) 
+    (bs "a.com") rp_example_list /\
+  TG_rp seahash rp_example_matches pr ut_url_hard rp_example_list /\
+  r_rewritten
+    (engine_check rp_example_matches pr (C12_Model.is_supported q) (C12_Model.original_url q)
+       C13_Model.empty_store false false
+       (tags_with_set seahash (blocker_new seahash rp_example_list) [])) =
+  Some (bs "  HTTPS:/\u:p@A" ++ [9] ++ bs ".com/p?x=1#f " ++ [10]).
+Proof. exact ut_engine_example. Qed.
+Print Assumptions C14_url_tie_engine_example.
+
+Theorem C14_tab_in_key_is_copied :
+  request_new ut_idna ut_psl seahash ut_url_tab ut_source ut_type = Ok (Some ut_q_tab) /\
+  C12_Model.url ut_q_tab = ut_url_tab /\
+  query_params ut_url_tab =
+  [bs "re" ++ [9] ++ bs "f=1"; [195; 169] ++ bs "=2"; bs "a ""b=3"; bs "ref=4"] /\
+  C14_Model.apply_removeparam [bs "ref"] ut_url_tab =
+  Some (bs "https://a.com/p?re" ++ [9] ++ bs "f=1&" ++ [195; 169] ++ bs "=2&a ""b=3").
+Proof. exact tab_in_key_is_copied. Qed.
+Print Assumptions C14_tab_in_key_is_copied.
+
+Theorem C14_trailing_blank_is_a_value :
+  C12_Model.url ut_q_blank = bs "https://a.com/p?ref=" /\
+  C14_Model.apply_removeparam [bs "ref"] (C12_Model.original_url ut_q_blank) =
+  Some (bs "https://a.com/p") /\
+  C14_Model.apply_removeparam [bs "ref"] (C12_Model.url ut_q_blank) = None /\
+  relevant (C12_Model.original_url ut_q_blank) (bs "ref") = true /\
+  relevant (C12_Model.url ut_q_blank) (bs "ref") = false.
+Proof. exact trailing_blank_is_a_value. Qed.
+Print Assumptions C14_trailing_blank_is_a_value.
+
